@@ -6,6 +6,8 @@ Only the *assembly / write-back / totalisation skeleton* is decided (a deliberat
                 solution-or-mix alternative ends in a STOP error when neither exists
   C02.save      Phreeqc::saver writes back ALL parts flagged in `save`: one block per flag, each calling x<kind>_save of the
                 same kind on the same kind's store and number range
+  C02.transfer  a kinetic reactant hands the system exactly the moles it loses: in calc_final_kinetic_reaction the scale factor of
+                the added elements is read after the exhaustion clamp and carried by every contribution (shared with C12)
   C02.total     inventories are totalised over all parts: cxxSystem::totalize adds every element-carrying part with
                 coefficient 1 (solution incl. H, O and charge); each entity's totalize() clears its totals and adds every
                 component in one unconditional loop (charge included where the component carries a charge balance)
@@ -163,6 +165,10 @@ def run(P, R, tier):
         if k not in saved and k not in vestigial:
             R.violation("C02.save", "saver:missing:%s" % k, "class save has a flag for %s but saver() has no block for it: the reacted part is never written back" % k,
                         file=g["file"], line=g["line"], function=g["q"])
+
+    # ------------------------------------------------------------------ C02.transfer (shared with C12)
+    from . import c12 as C12
+    C12.transfer_rule(P, R, RULE="C02.transfer")
 
     # ------------------------------------------------------------------ C02.total
     R.rule("C02.total", "cxxSystem::totalize adds every element-carrying part once with coefficient 1; entity totalize() functions clear and add all components", minimum=12)
